@@ -276,7 +276,7 @@ func (e *Engine) keyAlloc() string {
 // ---------- assumptions ----------
 
 func (e *Engine) assume(st *State, cond string) {
-	if cond == "true" || cond == "" {
+	if cond == "true" || cond == "" || e.c.inQuant > 0 {
 		return
 	}
 	st.pc = e.c.defineAlways("pc", SBool, and(st.pc, cond))
@@ -693,7 +693,9 @@ func (e *Engine) countTerm(st *State, m *types.Map, mref string, v string) strin
 	dom := e.mapDom(st, m, mref)
 	val := sel(e.heapGet(st, e.keyMapVal(m, 0)), mref)
 	t := app(f, dom, val, v)
-	e.assume(st, "(>= "+t+" 0)")
+	ln := e.mapLen(st, m, mref)
+	// finite maps (T4): a count is bounded by the number of keys, which fits in an int
+	e.assume(st, and("(>= "+t+" 0)", "(<= "+t+" "+ln+")", "(<= "+ln+" 9223372036854775807)"))
 	return t
 }
 
